@@ -714,6 +714,11 @@ class APTMirror:
                                 self._config.encode_tilde
                             )
                         )
+                        # A repository that has never been mirrored successfully has
+                        # no clean script: it must not abort the whole script
+                        if not clean_script.exists():
+                            continue
+
                         fp.write(f"sh {shlex.quote(str(clean_script))}\n")
 
                 self._config.cleanscript.chmod(0o750)
